@@ -56,6 +56,13 @@ Theorem C05_member_cannot_unlock : forall fuel s q n s' out,
 Proof. exact member_cannot_unlock. Qed.
 Print Assumptions C05_member_cannot_unlock.
 
+(* ---- a refused unlock_ (whoever refuses it: a locked parent of the node or of any node below it) leaves the shared / memmap
+   status of every node as it was (D68 repaired: before, _propagate_unlock had cleared it on the way and nothing put it back) *)
+Theorem C05_refused_unlock_keeps_sharing : forall fuel s n s' e, step fuel s (OUnlock n) = Some (s', Raised e) ->
+  forall x a b, lookup (hp s) x = Some a -> lookup (hp s') x = Some b -> shm a = shm b /\ mm a = mm b.
+Proof. exact refused_unlock_keeps_sharing. Qed.
+Print Assumptions C05_refused_unlock_keeps_sharing.
+
 (* ---- shared_node: c is below r1 and also a child of p, a live locked node outside r1's tree: unlock_ r1 raises and restores *)
 Theorem C05_shared_node : forall fuel s r1 c p s' out,
   Inv s -> Reach (hp s) r1 c -> child (hp s) p c -> ~ Reach (hp s) r1 p ->
